@@ -124,6 +124,12 @@ def _vacuum(rep):
             cr = [u[1] * v[2] - u[2] * v[1], u[2] * v[0] - u[0] * v[2], u[0] * v[1] - u[1] * v[0]]
             st.prove("third-vector-parallel-to-the-original", z3.And([x == 0 for x in cr]))
             st.prove("third-vector-same-orientation-and-non-zero", u[0] * v[0] + u[1] * v[1] + u[2] * v[2] > 0)
+            # enough vacuum to break the periodicity along the non-periodic direction: the new period exceeds twice the thickness of the sheet
+            # (with period == 2*thickness a two-plane layer acquires a spurious c/2 translation / glide). Proved via |lambda*v|^2 = lambda^2 |v|^2.
+            lam = z3.Real("lambda_wit")
+            st.assume(z3.And([u[q] == lam * v[q] for q in range(3)]))  # witness of the (proved) parallelism: defines lambda
+            L0 = z3num(NP.linalg.norm(c0[[k], :]))
+            st.prove("new-period-exceeds-twice-the-thickness", lam * L0 > 2 * ctx["thick"].t)
             st.prove("n_pbc-is-2", z3.BoolVal(int(self_._f.get("n_pbc")) == 2))
 
         run_fv(rep, "vacuum[nonperiodic=%d]." % k, m, "SymmetryAnalyzer.set_system", mk, post,
